@@ -1,4 +1,4 @@
 From Coq Require Import Extraction ExtrOcamlBasic NArith.
 From DV Require Import Base.Outcome C11.Gen C11.Model C11.Exec.
 Extraction Language OCaml.
-Extraction "../build/ml/C11/model.ml" c11_key_new c11_client_request c11_server_request c11_server_answer c11_server_answer_vars c11_server_seq_answer c11_client_answer c11_cseq_answer c11_cseq_done c11_eq_fudged c11_hmac c11_default_fudge c11_unsigned_error_rcode c11_unsigned_error_response c11_wrapper_validate c11_from_message.
+Extraction "../build/ml/C11/model.ml" c11_key_new c11_key_generate c11_client_request c11_server_request c11_server_answer c11_server_answer_vars c11_server_seq_answer c11_client_answer c11_cseq_answer c11_cseq_done c11_eq_fudged c11_hmac c11_default_fudge c11_unsigned_error_rcode c11_unsigned_error_response c11_wrapper_validate c11_from_message.
